@@ -86,8 +86,8 @@ func txnProgram(j int, tx TxnSpec, uniq int) []string {
 func uniqKey(p, j int) int { return 100*(p+1) + j }
 
 type c09Meta struct {
-	Txns   [][]TxnSpec `json:"txns"`
-	Rows   []int       `json:"rows"` // rows per table
+	Txns [][]TxnSpec `json:"txns"`
+	Rows []int       `json:"rows"` // rows per table
 }
 
 // renderCounterProcs rebuilds the program texts from the workload description.
@@ -373,9 +373,9 @@ type hold struct {
 }
 
 type holdObserver struct {
-	holds      map[string][]hold
-	violations []Violation
-	acqStart   map[int]time.Duration // per process: time its current acquisition attempt began
+	holds                    map[string][]hold
+	violations               []Violation
+	acqStart                 map[int]time.Duration // per process: time its current acquisition attempt began
 	blockedByLock, backedOff int
 }
 
@@ -594,7 +594,7 @@ func judgeCounterRun(o *Outcome, prop string, sc *Scenario, meta *c09Meta, res *
 					ob2, has2 := obs(q[2])
 					ops[tx.Table] = append(ops[tx.Table], porcupine.Operation{ClientId: pi,
 						Input: histIn{Kind: "write", Delta: "inc", Key: tx.Key, Commit: tx.Commit && e != nil, Who: who},
-						Call: 2 * m.step, Output: histOut{Started: has2, Obs: ob2, HasObs: has2}, Return: 2*ret + 1})
+						Call:  2 * m.step, Output: histOut{Started: has2, Obs: ob2, HasObs: has2}, Return: 2*ret + 1})
 					if tx.Commit && e != nil {
 						committed[tx.Table][fmt.Sprintf("inc:%d", tx.Key)]++
 					}
@@ -613,7 +613,7 @@ func judgeCounterRun(o *Outcome, prop string, sc *Scenario, meta *c09Meta, res *
 				}
 				ops[tx.Table] = append(ops[tx.Table], porcupine.Operation{ClientId: pi,
 					Input: histIn{Kind: "write", Delta: delta, Key: key, Commit: tx.Commit && e != nil, Who: who},
-					Call: 2 * b.step, Output: histOut{Started: has2, Obs: ob2, HasObs: has2}, Return: 2*ret + 1})
+					Call:  2 * b.step, Output: histOut{Started: has2, Obs: ob2, HasObs: has2}, Return: 2*ret + 1})
 				if tx.Commit && e != nil {
 					committed[tx.Table][fmt.Sprintf("%s:%d", delta, key)]++
 				}
